@@ -27,6 +27,6 @@ ASSUMES = ["leader-side obligations env_ok (Append authenticity, attach only whe
 RULE = ("as C04, generator biased to replication: leader logs are generated per election from the follower's real log (common prefix + dead-term entries), "
         "the honest truncate decision is computed and sent, plus truncations with arbitrary ids; the ack monitors are armed only for terms whose leader obligations hold")
 LEGS = [
-    {"name": "node-c03", "harness": "node", "model": "node", "n_quick": 70, "n_thorough": 4000, "args": ["-focus", "c03"],
+    {"name": "node-c03", "harness": "node", "model": "node", "n_quick": 50, "n_thorough": 4000, "args": ["-focus", "c03"],
      "corpus": "corpus/node", "timeout": 600, "timeout_thorough": 3000},
 ]
